@@ -434,6 +434,20 @@ def _run_hist(case, batch, d):
     except Exception as e:
         read["error"] = type(e).__name__
         read["msg"] = str(e)[:200]
+    # the reader's own batch size (rows fetched per round trip) may not change what is read back
+    if "records" in read:
+        for rb in (1, 2, 3):
+            try:
+                rd = SqliteReader(path, batch_size=rb)
+                try:
+                    got = [[rec._desc.name, [_obs_read_value(getattr(rec, n)) for n in rec.__slots__]] for rec in rd]
+                finally:
+                    rd.con.close()
+            except Exception as e:      # noqa: BLE001
+                got = "error: " + type(e).__name__
+            if got != [[r[0], r[3]] for r in read["records"]]:
+                read["reader_batch_differs"] = [rb, got if isinstance(got, str) else len(got), len(read["records"])]
+                break
     return {"batch": batch, "steps": steps, "read": read}
 
 
@@ -671,6 +685,10 @@ def _oracle_run(case, run):
     rd = run["read"]
     if "error" in rd:
         return f"batch_size={b}: SqliteReader raised {rd['error']}: {rd.get('msg')}"
+    if rd.get("reader_batch_differs"):
+        rb, got, n = rd["reader_batch_differs"]
+        return (f"batch_size={b}: SqliteReader(batch_size={rb}) reads back {got} records where the default reader reads {n}: "
+                f"what is read depends on the reader's batch size")
     per = {}
     for rec in rd["records"]:
         per.setdefault(rec[0], []).append(rec)
